@@ -1,12 +1,13 @@
 #!/usr/bin/env python3
-"""seedtest.py <PROPERTY_ID> <dir-with-patch.diff-and-demo> <seeded-name> [--checks C02,C03] [--tier quick]
+"""seedtest.py <PROPERTY_ID> <dir-with-patch.diff-and-demo> <seeded-name> [--checks C02,C03] [--tier quick] [--confirm-only]
+   seedtest.py detect <seeded-name> [--checks C02,C03] [--tier quick]     (re-run our checks against a kept seed)
 
 Confirms a seeded defect (patch.diff + demonstration) in a scratch git worktree of
 /repo, then runs our checks against it with the patch applied to /repo and undone
 straight afterwards. On success the material is kept in /verif/seeded/<name>/ with
 meta.json. Nothing is ever committed to /repo.
 """
-import json, os, shutil, subprocess, sys, time
+import re, json, os, shutil, subprocess, sys, time
 
 REPO = "/repo"
 VERIF = "/verif"
@@ -18,7 +19,47 @@ def sh(cmd, cwd=None, timeout=1500):
     return p.returncode, (p.stdout + p.stderr)
 
 
+def detect(meta, patch, checks, tier):
+    """our checks against /repo with the patch applied, undone straight afterwards"""
+    rc, out = sh("git -C %s status --porcelain" % REPO)
+    if out.strip():
+        print("/repo is not clean; refusing")
+        sys.exit(2)
+    rc, out = sh("git -C %s apply %s" % (REPO, patch))
+    if rc != 0:
+        print("patch does not apply to /repo:", out)
+        sys.exit(2)
+    results = meta.get("checks", {})
+    try:
+        for ck in checks:
+            t0 = time.time()
+            rc, out = sh("./check %s --tier %s --no-evidence" % (ck, tier), cwd=VERIF, timeout=3000)
+            viol = [l for l in out.splitlines() if l.startswith("VIOLATION") or l.startswith("violated")]
+            results[ck] = {"exit": rc, "detected": rc == 1, "seconds": round(time.time() - t0, 1), "lines": viol[:6], "tier": tier}
+            if rc not in (0, 1):
+                results[ck]["trouble"] = out[-600:]
+    finally:
+        sh("git -C %s checkout -- ." % REPO)
+    meta["checks"] = results
+    meta["detected_by"] = sorted(k for k, v in results.items() if v["detected"])
+    meta["checked_at"] = time.strftime("%Y-%m-%d %H:%M:%S")
+
+
 def main():
+    if sys.argv[1] == "detect":
+        name = sys.argv[2]
+        dst = os.path.join(VERIF, "seeded", name)
+        meta = json.load(open(os.path.join(dst, "meta.json")))
+        checks, tier = [meta["property"]], "quick"
+        for i, a in enumerate(sys.argv):
+            if a == "--checks":
+                checks = sys.argv[i + 1].split(",")
+            if a == "--tier":
+                tier = sys.argv[i + 1]
+        detect(meta, os.path.join(dst, "patch.diff"), checks, tier)
+        json.dump(meta, open(os.path.join(dst, "meta.json"), "w"), indent=1)
+        print(name, "detected_by", meta["detected_by"], {k: v["exit"] for k, v in meta["checks"].items()})
+        sys.exit(0)
     pid, src, name = sys.argv[1], sys.argv[2].rstrip("/"), sys.argv[3]
     checks = [pid]
     tier = "quick"
@@ -63,7 +104,8 @@ def main():
         if not demo_cmd:
             testfiles = [f for f in demos if f.endswith("_test.go")]
             demo_cmd = "go test -vet=off -count=1 -run 'Demo|ZZ|Seed' ./%s" % pkgdir if testfiles else ""
-        demo_cmd = demo_cmd.replace("/tmp/wt/%s" % pid, wt)
+        demo_cmd = re.sub(r"^\s*cp [^&]*&&\s*", "", demo_cmd)  # demo files are copied below anyway
+        demo_cmd = re.sub(r"/tmp/wt/%s(?![-\w])" % pid, wt, demo_cmd)
         # 1. unchanged tree: demo passes
         rc0, out0 = sh(demo_cmd, cwd=wt)
         meta["demo_without_patch"] = "pass" if rc0 == 0 else "FAIL"
@@ -107,23 +149,8 @@ def main():
     finally:
         sh("git -C %s worktree remove --force %s" % (REPO, wt))
         shutil.rmtree(wt, ignore_errors=True)
-    # 3. our checks against /repo with the patch applied
-    rc, out = sh("git -C %s status --porcelain" % REPO)
-    if out.strip():
-        print("/repo is not clean; refusing")
-        sys.exit(2)
-    rc, out = sh("git -C %s apply %s" % (REPO, patch))
-    results = {}
-    try:
-        for ck in checks:
-            t0 = time.time()
-            rc, out = sh("./check %s --tier %s --no-evidence" % (ck, tier), cwd=VERIF, timeout=3000)
-            viol = [l for l in out.splitlines() if l.startswith("VIOLATION") or l.startswith("violated")]
-            results[ck] = {"exit": rc, "detected": rc == 1, "seconds": round(time.time() - t0, 1), "lines": viol[:6]}
-    finally:
-        sh("git -C %s checkout -- ." % REPO)
-    meta["checks"] = results
-    meta["detected_by"] = [k for k, v in results.items() if v["detected"]]
+    if "--confirm-only" not in sys.argv:
+        detect(meta, patch, checks, tier)
     return finish(meta, src, name, True)
 
 
